@@ -28,6 +28,7 @@ func init() {
 
 func runC09(c *Ctx) {
 	w := c.W
+	hostnameRules(c)
 	vh := w.Fn(fnVerifyHost)
 	if vh == nil {
 		c.Undecided("R-CUT", fnVerifyHost, "anchor", "-", "not found")
